@@ -91,6 +91,46 @@ func NewLexPart(header, imports, prodList interface{}) (*LexPart, error) {
 	return lexPart, nil
 }
 
+// UndefinedRegDef returns the id of a regular definition that is used in some lexical
+// production but is neither defined nor imported, together with the id of that
+// production; it returns "", "" if every regular definition used is defined.
+func (this *LexPart) UndefinedRegDef() (regDefId, usedIn string) {
+	for _, p := range this.ProdList.Productions {
+		if id := this.undefinedRegDef(p.LexPattern()); id != "" {
+			return id, p.Id()
+		}
+	}
+	return "", ""
+}
+
+func (this *LexPart) undefinedRegDef(pattern *LexPattern) string {
+	for _, alt := range pattern.Alternatives {
+		for _, term := range alt.Terms {
+			var sub *LexPattern
+			switch t := term.(type) {
+			case *LexRegDefId:
+				_, defined := this.RegDefs[t.Id]
+				_, imported := this.Imports[t.Id]
+				if !defined && !imported {
+					return t.Id
+				}
+			case *LexGroupPattern:
+				sub = t.LexPattern
+			case *LexOptPattern:
+				sub = t.LexPattern
+			case *LexRepPattern:
+				sub = t.LexPattern
+			}
+			if sub != nil {
+				if id := this.undefinedRegDef(sub); id != "" {
+					return id
+				}
+			}
+		}
+	}
+	return ""
+}
+
 func (this *LexPart) StringLitTokDef(id string) *LexTokDef {
 	tokDef := this.stringLitToks[id]
 	return tokDef
